@@ -345,7 +345,7 @@ func c01Forgery(r *mc.Run, c *mc.Ctx, base *c01base, lv []int, nl int) {
 	foreign := world.NewKey("foreign-att")
 	other := world.NewKey("other-signer")
 
-	attMode := c.Choose("attkey", 6)
+	attMode := c.Choose("attkey", 10)
 	bodySigner := c.Choose("bodysigner", 3)
 	signedBytes := c.Choose("signedbytes", 4)
 	rdMode := c.Choose("reportdata", 6)
@@ -382,6 +382,33 @@ func c01Forgery(r *mc.Run, c *mc.Ctx, base *c01base, lv []int, nl int) {
 	qeResign := false
 	if rebind {
 		p.BindReportData() // stale QE signature on purpose
+	}
+	if attMode >= 6 {
+		// the holder of the PCK key certifies (report data rebound, QE report re-signed) a key field that carries
+		// ANOTHER ENCODING of the key that signs header||body: each coordinate byte-reversed (little-endian), the
+		// whole field reversed, the point negated, the coordinates in Y||X order. The field as carried is not that key
+		k := att.Raw64()
+		v := append([]byte(nil), k...)
+		switch attMode {
+		case 6:
+			for i := 0; i < 32; i++ {
+				v[i], v[32+i] = k[31-i], k[63-i]
+			}
+		case 7:
+			for i := 0; i < 64; i++ {
+				v[i] = k[63-i]
+			}
+		case 8:
+			y := new(big.Int).SetBytes(k[32:])
+			y.Sub(elliptic.P256().Params().P, y)
+			y.FillBytes(v[32:])
+		case 9:
+			copy(v[:32], k[32:])
+			copy(v[32:], k[:32])
+		}
+		p.AttKey = v
+		p.BindReportData()
+		qeResign = true
 	}
 	switch rdMode {
 	case 1:
